@@ -415,19 +415,19 @@ Proof.
 Qed.
 
 (* ---------- richtext.go instance ---------- *)
-Lemma fls_go_eq hasbreak pairbrk first i c nx t :
-  fls_go hasbreak pairbrk first i (c :: nx :: t) =
+Lemma fls_go_eq hasbreak pairbrk pairmust first i c nx t :
+  fls_go hasbreak pairbrk pairmust first i (c :: nx :: t) =
   if first && hasbreak c then Some (S i, true)
   else if hasbreak nx then Some (S (S i), true)
   else match pairbrk c nx with
        | None => None
-       | Some true => Some (S i, false)
-       | Some false => fls_go hasbreak pairbrk false (S i) (nx :: t)
+       | Some true => Some (S i, pairmust c nx)
+       | Some false => fls_go hasbreak pairbrk pairmust false (S i) (nx :: t)
        end.
 Proof. reflexivity. Qed.
 
-Lemma fls_go_ok hasbreak pairbrk : forall cells first i n br,
-  cells <> [] -> fls_go hasbreak pairbrk first i cells = Some (n, br) ->
+Lemma fls_go_ok hasbreak pairbrk pairmust : forall cells first i n br,
+  cells <> [] -> fls_go hasbreak pairbrk pairmust first i cells = Some (n, br) ->
   (i < n <= i + length cells)%nat /\ (n = (i + length cells)%nat -> br = true).
 Proof.
   induction cells as [|c t IH]; intros first i n br Hne H; [congruence|].
@@ -443,10 +443,10 @@ Proof.
     + apply IH in H; [|discriminate]. cbn [length] in *. split; [lia|]. intros Hn. apply H. lia.
 Qed.
 
-Lemma rich_seg_ok hasbreak pairbrk : seg_ok unit (rich_segf hasbreak pairbrk).
+Lemma rich_seg_ok hasbreak pairbrk pairmust : seg_ok unit (rich_segf hasbreak pairbrk pairmust).
 Proof.
   intros st rest n br st' Hne H. unfold rich_segf, first_line_segment in H.
-  destruct (fls_go hasbreak pairbrk true 0 rest) as [[m b]|] eqn:E; [|discriminate].
+  destruct (fls_go hasbreak pairbrk pairmust true 0 rest) as [[m b]|] eqn:E; [|discriminate].
   injection H as <- <- <-. apply fls_go_ok in E; auto.
 Qed.
 
@@ -455,8 +455,8 @@ Theorem plain_terminates N orc is_space hasbreak residue W input :
   snd (run Z (plain_segf N orc) plain_reset is_space hasbreak residue W input (-1)) <> Hang.
 Proof. intros H HW. apply scan_all_no_hang; auto. apply plain_seg_ok; auto. Qed.
 
-Theorem rich_terminates pairbrk is_space hasbreak residue W input : 0 <= W ->
-  snd (run unit (rich_segf hasbreak pairbrk) (fun s => s) is_space hasbreak residue W input tt) <> Hang.
+Theorem rich_terminates pairbrk pairmust is_space hasbreak residue W input : 0 <= W ->
+  snd (run unit (rich_segf hasbreak pairbrk pairmust) (fun s => s) is_space hasbreak residue W input tt) <> Hang.
 Proof. intros HW. apply scan_all_no_hang; auto. apply rich_seg_ok. Qed.
 
 (* [kept is_space a b]: a and b differ only by whitespace cells *)
@@ -1263,22 +1263,28 @@ Qed.
 Section Rich.
   Variable hasbreak : cell -> bool.
   Variable pairbrk : cell -> cell -> option bool.
+  Variable pairmust : cell -> cell -> bool.
   Variable input : list cell.
   Notation N := (length input).
   Notation B := (rich_B hasbreak pairbrk input).
-  Notation Hd := (rich_Hd hasbreak input).
+  Notation Hd := (rich_Hd hasbreak pairbrk pairmust input).
 
   Lemma rich_B_S j c nx : nth_error input j = Some c -> nth_error input (S j) = Some nx ->
     B (S j) = hasbreak c || (negb (hasbreak nx) && match pairbrk c nx with Some true => true | _ => false end).
   Proof. intros H1 H2. unfold rich_B. rewrite H1, H2. reflexivity. Qed.
 
-  Lemma rich_Hd_S j c : nth_error input j = Some c -> Hd (S j) = hasbreak c.
-  Proof. intros H1. unfold rich_Hd. rewrite H1. reflexivity. Qed.
+  Lemma rich_Hd_S j c nx : nth_error input j = Some c -> nth_error input (S j) = Some nx ->
+    Hd (S j) = hasbreak c || (negb (hasbreak nx) && match pairbrk c nx with Some true => true | _ => false end
+                              && pairmust c nx).
+  Proof. intros H1 H2. unfold rich_Hd. rewrite H1, H2. reflexivity. Qed.
+
+  Lemma rich_Hd_last j c : nth_error input j = Some c -> nth_error input (S j) = None -> Hd (S j) = hasbreak c.
+  Proof. intros H1 H2. unfold rich_Hd. rewrite H1, H2. apply orb_false_r. Qed.
 
   Lemma fls_go_pos p : forall cells first i n br,
     cells = skipn (p + i) input -> cells <> [] ->
     (first = false -> exists c, nth_error input (p + i) = Some c /\ hasbreak c = false) ->
-    fls_go hasbreak pairbrk first i cells = Some (n, br) ->
+    fls_go hasbreak pairbrk pairmust first i cells = Some (n, br) ->
     (p + i < p + n <= N)%nat /\ ((p + n)%nat = N \/ B (p + n) = true) /\
     (forall q, (p + i < q < p + n)%nat -> B q = false) /\
     (br = true <-> ((p + n)%nat = N \/ Hd (p + n) = true)).
@@ -1295,25 +1301,26 @@ Section Rich.
       assert (Hj2 : (S (p + i) < N)%nat) by (apply nth_error_Some; congruence).
       assert (HcF : (first && hasbreak c) = false -> hasbreak c = false).
       { intros Hf. destruct first; [exact Hf|]. destruct (Hfirst eq_refl) as [c' [Hc' Hb]]. congruence. }
-      pose proof (rich_B_S _ _ _ Hc Hnx) as HB1. pose proof (rich_Hd_S _ _ Hc) as HD1.
+      pose proof (rich_B_S _ _ _ Hc Hnx) as HB1. pose proof (rich_Hd_S _ _ _ Hc Hnx) as HD1.
       destruct (first && hasbreak c) eqn:Ef.
       { injection H as <- <-. apply andb_true_iff in Ef. destruct Ef as [_ Ef].
-        replace (p + S i)%nat with (S (p + i)) by lia. rewrite HB1, HD1, Ef.
+        replace (p + S i)%nat with (S (p + i)) by lia. rewrite HB1, HD1, Ef. cbn [orb].
         repeat split; auto; try lia. }
       specialize (HcF eq_refl).
       destruct (hasbreak nx) eqn:En.
       { injection H as <- <-. replace (p + S (S i))%nat with (S (S (p + i))) by lia.
-        pose proof (rich_Hd_S _ _ Hnx) as HD2. rewrite HD2, En.
-        split; [lia|]. split; [|split; [|tauto]].
-        - destruct (nth_error input (S (S (p + i)))) as [z|] eqn:Ez.
-          + right. rewrite (rich_B_S _ _ _ Hnx Ez), En. reflexivity.
-          + left. apply nth_error_None in Ez. lia.
-        - intros q Hq. replace q with (S (p + i)) by lia. rewrite HB1, HcF. reflexivity. }
+        assert (Hmid : forall q, (p + i < q < S (S (p + i)))%nat -> B q = false).
+        { intros q Hq. replace q with (S (p + i)) by lia. rewrite HB1, HcF. reflexivity. }
+        destruct (nth_error input (S (S (p + i)))) as [z|] eqn:Ez.
+        - rewrite (rich_B_S _ _ _ Hnx Ez), (rich_Hd_S _ _ _ Hnx Ez), En. cbn [orb].
+          split; [lia|]. split; [right; reflexivity|]. split; [exact Hmid|]. split; auto.
+        - apply nth_error_None in Ez.
+          split; [lia|]. split; [left; lia|]. split; [exact Hmid|]. split; [intros _; left; lia|auto]. }
       destruct (pairbrk c nx) as [[|]|] eqn:Ep; [| |discriminate].
       + injection H as <- <-. replace (p + S i)%nat with (S (p + i)) by lia.
         rewrite HB1, HD1, HcF. cbn.
-        split; [lia|]. split; [auto|]. split; [intros q Hq; lia|]. split; [discriminate|].
-        intros [Hc0|Hc0]; [lia|discriminate].
+        split; [lia|]. split; [auto|]. split; [intros q Hq; lia|]. split; [auto|].
+        intros [Hc0|Hc0]; [lia|exact Hc0].
       + apply IH in H; auto.
         * replace (p + S i)%nat with (S (p + i)) in H by lia.
           destruct H as [H1 [H2 [H3 H4]]]. split; [lia|]. split; [auto|]. split; [|auto].
@@ -1324,10 +1331,10 @@ Section Rich.
         * intros _. exists nx. replace (p + S i)%nat with (S (p + i)) by lia. auto.
   Qed.
 
-  Lemma rich_consistent : consistent unit (rich_segf hasbreak pairbrk) input B Hd (fun _ _ => True).
+  Lemma rich_consistent : consistent unit (rich_segf hasbreak pairbrk pairmust) input B Hd (fun _ _ => True).
   Proof.
     intros st p n br st' _ Hp Hs. unfold rich_segf, first_line_segment in Hs.
-    destruct (fls_go hasbreak pairbrk true 0 (skipn p input)) as [[m b]|] eqn:E; [|discriminate].
+    destruct (fls_go hasbreak pairbrk pairmust true 0 (skipn p input)) as [[m b]|] eqn:E; [|discriminate].
     injection Hs as <- <- <-. split; [exact I|].
     apply (fls_go_pos p) in E.
     - rewrite Nat.add_0_r in E. tauto.
@@ -1340,19 +1347,19 @@ Section Rich.
   Proof.
     intros He H. destruct e as [|q]; [discriminate|]. unfold rich_Hd in H. unfold rich_B.
     destruct (nth_error input q) as [a|] eqn:Ea; [|discriminate].
-    destruct (nth_error input (S q)) as [b|] eqn:Eb; [rewrite H; reflexivity|].
-    apply nth_error_None in Eb. lia.
+    destruct (nth_error input (S q)) as [b|] eqn:Eb; [|apply nth_error_None in Eb; lia].
+    destruct (hasbreak a), (hasbreak b), (pairbrk a b) as [[|]|]; cbn in *; auto.
   Qed.
 End Rich.
 
-Theorem rich_run_ok pairbrk input W lines :
+Theorem rich_run_ok pairbrk pairmust input W lines :
   0 <= W < 65536 -> wok input -> sumw input < 65536 ->
-  run unit (rich_segf cell_hasbreak pairbrk) (fun s => s) cell_is_space cell_hasbreak rich_residue W input tt = (lines, Done) ->
-  c16_ok_b cell_is_space (same_cells cell_is_space) (rich_B cell_hasbreak pairbrk input) (rich_Hd cell_hasbreak input)
+  run unit (rich_segf cell_hasbreak pairbrk pairmust) (fun s => s) cell_is_space cell_hasbreak rich_residue W input tt = (lines, Done) ->
+  c16_ok_b cell_is_space (same_cells cell_is_space) (rich_B cell_hasbreak pairbrk input) (rich_Hd cell_hasbreak pairbrk pairmust input)
            W input lines = true.
 Proof.
   intros HW Hwok Hov H.
-  eapply (run_ok unit (rich_segf cell_hasbreak pairbrk) (fun s => s) cell_is_space cell_hasbreak rich_residue
+  eapply (run_ok unit (rich_segf cell_hasbreak pairbrk pairmust) (fun s => s) cell_is_space cell_hasbreak rich_residue
             (rich_seg_ok _ _) (fun _ => True) cell_is_space).
   - apply isbrk_isspace.
   - auto.
@@ -1485,12 +1492,12 @@ Definition text_ok (input : list cell) (W : Z) : Prop :=
 Definition plain_scan (orc : Z -> Z -> option (Z * bool * Z)) (W : Z) (input : list cell) :=
   run Z (plain_segf (length input) orc) plain_reset cell_is_space cell_hasbreak plain_residue W input (-1).
 
-Definition rich_scan (pairbrk : cell -> cell -> option bool) (W : Z) (input : list cell) :=
-  run unit (rich_segf cell_hasbreak pairbrk) (fun s => s) cell_is_space cell_hasbreak rich_residue W input tt.
+Definition rich_scan (pairbrk : cell -> cell -> option bool) (pairmust : cell -> cell -> bool) (W : Z) (input : list cell) :=
+  run unit (rich_segf cell_hasbreak pairbrk pairmust) (fun s => s) cell_is_space cell_hasbreak rich_residue W input tt.
 
 Lemma plain_run_eq W input tbl : plain_run W input tbl = plain_scan (tbl_orc tbl) W input.
 Proof. reflexivity. Qed.
-Lemma rich_run_eq W input tbl : rich_run W input tbl = rich_scan (tbl_pairbrk tbl) W input.
+Lemma rich_run_eq W input tbl : rich_run W input tbl = rich_scan (tbl_pairbrk tbl) (tbl_pairmust tbl) W input.
 Proof. reflexivity. Qed.
 
 Section PlainReadable.
@@ -1574,6 +1581,7 @@ End PlainReadable.
 
 Section RichReadable.
   Variable pairbrk : cell -> cell -> option bool.
+  Variable pairmust : cell -> cell -> bool.
   Variable input : list cell.
   Variable W : Z.
   Notation N := (length input).
@@ -1589,35 +1597,35 @@ Section RichReadable.
   Lemma rich_Hgood : Forall (fun _ : cell => True) input.
   Proof. apply Forall_forall. auto. Qed.
 
-  Theorem rich_lines lines o : rich_scan pairbrk W input = (lines, o) ->
+  Theorem rich_lines lines o : rich_scan pairbrk pairmust W input = (lines, o) ->
     (forall l r, In (l, r) lines -> fits cell_is_space W l) /\
     (o = Done -> W <> 0 ->
      nonspace cell_is_space (concat (map fst lines)) = nonspace cell_is_space input).
   Proof.
     intros H.
-    destruct (run_lines unit (rich_segf cell_hasbreak pairbrk) (fun s => s) cell_is_space cell_hasbreak rich_residue
+    destruct (run_lines unit (rich_segf cell_hasbreak pairbrk pairmust) (fun s => s) cell_is_space cell_hasbreak rich_residue
                 (rich_seg_ok _ _) (fun _ => True) cell_is_space isbrk_isspace (fun c _ h => h) rich_Hres
                 input W HW Hwok Hov rich_Hgood tt lines o H) as [F1 F2].
     split; [exact F1|]. intros Ho HW0. apply kept_nonspace. auto.
   Qed.
 
-  Theorem rich_cuts lines o : rich_scan pairbrk W input = (lines, o) ->
+  Theorem rich_cuts lines o : rich_scan pairbrk pairmust W input = (lines, o) ->
     let B := rich_B cell_hasbreak pairbrk input in
-    let Hd := rich_Hd cell_hasbreak input in
+    let Hd := rich_Hd cell_hasbreak pairbrk pairmust input in
     (forall c, In c (cuts_of N lines) -> c <> N -> B c = false ->
        forall a e, (a < c < e)%nat -> (e <= N)%nat -> (a = 0%nat \/ B a = true) -> (e = N \/ B e = true) ->
          (forall q, (a < q < e)%nat -> B q = false) -> W < sumw (trim_right cell_is_space (sub input a e))) /\
     (o = Done -> W <> 0 -> forall e, (0 < e <= N)%nat -> Hd e = true -> In e (cuts_of N lines)).
   Proof.
     intros H.
-    apply (run_cuts unit (rich_segf cell_hasbreak pairbrk) (fun s => s) cell_is_space cell_hasbreak rich_residue
+    apply (run_cuts unit (rich_segf cell_hasbreak pairbrk pairmust) (fun s => s) cell_is_space cell_hasbreak rich_residue
              (rich_seg_ok _ _) (fun _ => True) cell_is_space isbrk_isspace (fun c _ h => h) rich_Hres
              input W HW Hwok Hov rich_Hgood _ _ (fun _ _ => True) (rich_consistent _ _ _)
              (fun st p q h => h) (rich_HdB _ _ _) tt lines o I H).
   Qed.
 
   Lemma fls_go_total hasbreak : (forall a b, pairbrk a b <> None) ->
-    forall cells first i, fls_go hasbreak pairbrk first i cells <> None.
+    forall cells first i, fls_go hasbreak pairbrk pairmust first i cells <> None.
   Proof.
     intros Ht. induction cells as [|c t IH]; intros first i; [discriminate|].
     destruct t as [|nx t']; [discriminate|]. rewrite fls_go_eq.
@@ -1625,12 +1633,12 @@ Section RichReadable.
     destruct (pairbrk c nx) as [[|]|] eqn:E; [discriminate|apply IH|]. exfalso. eapply Ht; eauto.
   Qed.
 
-  Theorem rich_done : (forall a b, pairbrk a b <> None) -> snd (rich_scan pairbrk W input) = Done.
+  Theorem rich_done : (forall a b, pairbrk a b <> None) -> snd (rich_scan pairbrk pairmust W input) = Done.
   Proof.
-    intros Ht. apply (run_done unit (rich_segf cell_hasbreak pairbrk) (fun s => s) cell_is_space cell_hasbreak rich_residue
+    intros Ht. apply (run_done unit (rich_segf cell_hasbreak pairbrk pairmust) (fun s => s) cell_is_space cell_hasbreak rich_residue
                         (rich_seg_ok _ _) input W HW).
     intros st rest _. unfold rich_segf, first_line_segment.
-    destruct (fls_go cell_hasbreak pairbrk true 0 rest) as [[n br]|] eqn:E; [discriminate|].
+    destruct (fls_go cell_hasbreak pairbrk pairmust true 0 rest) as [[n br]|] eqn:E; [discriminate|].
     exfalso. eapply fls_go_total; eauto.
   Qed.
 End RichReadable.
